@@ -99,11 +99,15 @@ class _OpaqueEx(Extractor):
     def edge(self, e):
         if type(e).__name__ == 'FilterEdge':
             return {'k': 'fn', 'f': '$FilterEdge', 'kw': [], 'silent': []}
-        if type(e).__name__ in ('GroupMapping', 'GroupEdge'):
+        if type(e).__name__ in ('GroupMapping', 'GroupEdge', 'JoinMapping'):
             return {'k': 'fn', 'f': '$' + type(e).__name__, 'kw': [], 'silent': []}
         f = getattr(e, 'function', None)
         if type(e).__name__ == 'FunctionEdge' and getattr(f, '__module__', '') == 'connectome.layers.group' and f.__name__ == '<lambda>':
             return {'k': 'fn', 'f': '$sorted', 'kw': list(e.kw_names), 'silent': list(e.silent)}      # the new `ids`: `tuple(sorted(mapping))`
+        if type(e).__name__ == 'FunctionEdge' and getattr(f, '__module__', '') == 'connectome.layers.join' and f.__name__ in ('key', 'ids'):
+            arg = f.__closure__[0].cell_contents       # id_maker(index) / ids_maker(how)
+            arg = getattr(arg, 'name', arg)
+            return {'k': 'fn', 'f': f'${"id_maker" if f.__name__ == "key" else "ids_maker"}({arg})', 'kw': list(e.kw_names), 'silent': list(e.silent)}
         return super().edge(e)
 
 
@@ -135,6 +139,8 @@ def etag(t):
         return 'const:' + canon(t['v'])
     if t['k'] == 'switch':
         return 'switch:' + canon(sorted(t['table'], key=lambda r: json.dumps(r[0])))
+    if t['k'] == 'switch_missing':
+        return 'switch_missing:' + str(t['index'])
     if t['k'] in ('impure', 'byvalue'):
         return t['k'] + '(' + etag(t['inner']) + ')'
     return t['k']        # a cache edge: every field has a storage of its own, the numbering is arbitrary
@@ -500,4 +506,92 @@ def run_group_shard(args):
             bad.append({'desc': d, 'what': ['GroupBy container'] + keys_, 'real': {kk: a[kk] for kk in keys_[:2]}, 'model': {kk: m[kk] for kk in keys_[:2]}})
         elif not ans.get('wf'):
             bad.append({'desc': d, 'what': 'the model container of GroupBy is not well-formed (Bag.wfB)'})
+    return stats, bad
+
+
+def run_join_shard(args):
+    """the container `JoinContainer(left, right, on, ..., cache, how)` (layers/join.py) against `CM.Model.JoinBag.joinBag`: two real containers go in
+    (datasets, merged / cached datasets, plain layers), key fields that are shared, missing on one side, conflicting or equal to `id`; the four join
+    modes; with and without the user's cache edge; the joined containers are compared edge by edge up to node identities (the graphs inside
+    `JoinMapping` are opaque here; S-REL compares what they compute)"""
+    seed, n = args
+    paths.use_repo()
+    from . import rel
+    from connectome.layers.join import JoinContainer, JoinMode
+    from connectome.engine import CacheEdge
+    from connectome.cache import MemoryCache
+    recs, reqs = [], []
+    stats = {'joins': 0, 'errors': {}, 'edges': 0, 'modes': {}}
+    for c in range(n):
+        rng = random.Random(seed * 30011 + c)
+        world = SymWorld()
+        b = Builder(world)
+        try:
+            counter = [0]
+            sides, descs = [], []
+            shared = rng.sample(['k', 'j'], rng.randint(1, 2))
+            for side in range(2):
+                kind = rng.choice(['dataset', 'dataset', 'dataset', 'merge', 'chain', 'layer'])
+                if kind == 'layer':
+                    d = gen_layer(rng, (c + side) % 7)
+                    layer = b.layer(d)
+                else:
+                    own = rng.sample(['x', 'y'] if side == 0 else ['z', 'w'], rng.randint(0, 2))
+                    extra = ['y'] if rng.random() < 0.08 else []         # sometimes a conflicting field
+                    fields = [f for f in shared if rng.random() < 0.93] + own + [e for e in extra if e not in own]
+                    id_lists = rel.gen_ids(rng, 2 if kind == 'merge' else 1)
+                    d = [rel.gen_dataset(rng, counter, ids, fields) for ids in id_lists]
+                    layers = [b.layer(x) for x in d]
+                    layer = b.c.Merge(*layers) if kind == 'merge' else layers[0]
+                    if kind == 'chain':
+                        layer = layer >> b.c.CacheToRam(None)
+                sides.append(layer)
+                descs.append({'kind': kind, 'd': d})
+            left, right = real_bag(world, sides[0]), real_bag(world, sides[1])
+        except Exception:
+            continue
+        common = [set(o.name for o in x._container.outputs) - {'ids', 'id'} for x in sides]
+        on = sorted(common[0] & common[1])
+        rng.shuffle(on)
+        r = rng.random()
+        if r < 0.04:
+            on = on + ['id']
+        elif r < 0.08 and on:
+            on = on + [on[0]]
+        elif r < 0.12:
+            on = on + ['nope']
+        elif r < 0.16 and on:
+            on = on[1:]          # a shared field that is no key: a conflict
+        how = rng.choice(['inner', 'left', 'right', 'outer'])
+        cached = rng.random() < 0.3
+        try:
+            cont = JoinContainer(sides[0]._container, sides[1]._container, tuple(on), lambda x: x,
+                                 cache=CacheEdge(MemoryCache(None)) if cached else None, verbose=False, how=JoinMode[how])
+            real = {'ok': real_bag(world, None, cont)}
+        except (Unsupported, RecUnsupported):
+            continue
+        except Exception as e:
+            real = {'err': exc_name(e)}
+        recs.append(({'sides': descs, 'on': on, 'how': how, 'cached': cached}, real))
+        reqs.append({'left': left, 'right': right, 'on': on, 'how': how, 'cached': cached})
+    answers = driver.run_lines([{'op': 'factory', 'joins': reqs}])[0] if reqs else {'joins': []}
+    bad = []
+    if 'error' in answers:
+        return stats, [{'desc': None, 'diff': answers['error']}]
+    for (d, real), ans in zip(recs, answers['joins']):
+        stats['joins'] += 1
+        if 'err' in real or 'err' in ans:
+            kk = real.get('err', 'ok')
+            stats['errors'][kk] = stats['errors'].get(kk, 0) + 1
+            if real.get('err') != ans.get('err'):
+                bad.append({'desc': d, 'what': 'Join container', 'real': real.get('err', 'ok'), 'model': ans.get('err', 'ok')})
+            continue
+        stats['modes'][d['how']] = stats['modes'].get(d['how'], 0) + 1
+        stats['edges'] += len(real['ok']['edges'])
+        a, m = canon_sem(real['ok']), canon_sem(ans['ok'])
+        if a != m:
+            keys_ = [kk for kk in a if a[kk] != m[kk]]
+            bad.append({'desc': d, 'what': ['Join container'] + keys_, 'real': {kk: a[kk] for kk in keys_[:2]}, 'model': {kk: m[kk] for kk in keys_[:2]}})
+        elif not ans.get('wf'):
+            bad.append({'desc': d, 'what': 'the model container of Join is not well-formed (Bag.wfB)'})
     return stats, bad
